@@ -6,9 +6,12 @@ CONSTANTS
   CapAlphabet = {0, 1}
   DropChoices <- DropsLFS
   H = 1
-  PStalls = {0, 3}
+  PStalls = {0}
+  ConsumerStyles = {"block", "poll"}
+  StylesEverywhere = TRUE
+  PollingHelper = FALSE
   Observe = FALSE
   SkipIdxStep = FALSE
-  CStalls = {0, 3}
+  CStalls = {0}
 INVARIANTS EmitScn
 CHECK_DEADLOCK FALSE
